@@ -884,7 +884,7 @@ fn run_table(ev: &mut Ev, model: &mut TModel, srv: &mut ImplServer, program: &Pr
                 let sig = if fo {
                     format!("compat-unsound:{cls}")
                 } else if mech_id_sharing(&tbl, model, &mut names, &[(a, b)]) {
-                    format!("compat-unsound:{cls} (recursive/higher-order; verdict depends on id sharing)")
+                    "compat=assumption-reused-under-other-enclosing-types".to_string()
                 } else {
                     format!("compat-unsound:{cls} (recursive/higher-order)")
                 };
@@ -924,6 +924,37 @@ fn run_table(ev: &mut Ev, model: &mut TModel, srv: &mut ImplServer, program: &Pr
             }
         }
     }
+    // the verdict must not depend on which occurrences of a type share an id: recomputed on the tree
+    // unfolding of the table (every occurrence its own id; same meaning), pool roots only
+    if stream == "closed" && reach_has_cycle(&tbl, pool) && r.chance(1, 3) {
+        let roots: Vec<usize> = pool.iter().copied().filter(|i| closed.contains(i)).take(4).collect();
+        if roots.len() >= 2 {
+            if let Some((ut, img)) = tbl.unshare(&roots, 400) {
+                let shared: Vec<char> = ask(model, &format!("(matrix compat {})", roots.iter().map(|i| i.to_string()).collect::<Vec<_>>().join(" "))).chars().collect();
+                if ask(model, &ut.sx(&mut names)).starts_with("ok ") {
+                    let un: Vec<char> = ask(model, &format!("(matrix compat {})", img.iter().map(|i| i.to_string()).collect::<Vec<_>>().join(" "))).chars().collect();
+                    for (k, (x, y)) in shared.iter().zip(un.iter()).enumerate() {
+                        if *x == '?' || *y == '?' {
+                            ev.hit("unshare:fuel-out");
+                        } else if x == y {
+                            ev.hit(&format!("unshare:agree-{x}"));
+                        } else if *x == 'f' {
+                            // refused only because ids are shared: not a failure of the property
+                            // (assignability is not claimed complete)
+                            ev.hit("unshare:shared=f-unfolded=t");
+                        } else {
+                            ev.hit(&format!("unshare:shared={x}-unfolded={y}"));
+                            let (a, b) = (roots[k / roots.len()], roots[k % roots.len()]);
+                            report(ev, "compat=assumption-reused-under-other-enclosing-types",
+                                &format!("is_compatible({}, {}) = {x}, but = {y} when every occurrence of a type has an id of its own (same types, same meaning)", tbl.show(a), tbl.show(b)),
+                                replay_json(&tbl, &[a, b], json!({"op": "is_compatible", "shared": x.to_string(), "unfolded": y.to_string(), "broken": "the verdict of the model of check_type_relation depends on id sharing"})), false);
+                        }
+                    }
+                }
+                ask(model, &tbl.sx(&mut names));
+            }
+        }
+    }
     // transitivity on all triples of closed ids
     let mut triples = 0u64;
     for &a in &closed {
@@ -944,7 +975,7 @@ fn run_table(ev: &mut Ev, model: &mut TModel, srv: &mut ImplServer, program: &Pr
                     let sig = if fo3 {
                         format!("compat-not-transitive:{}-{}-{}", tbl.kind(a), tbl.kind(b), tbl.kind(cc))
                     } else if mech_id_sharing(&tbl, model, &mut names, &[(a, b), (b, cc)]) {
-                        format!("compat-not-transitive:{}-{}-{} (recursive/higher-order; verdict depends on id sharing)", tbl.kind(a), tbl.kind(b), tbl.kind(cc))
+                        "compat=assumption-reused-under-other-enclosing-types".to_string()
                     } else {
                         format!("compat-not-transitive:{}-{}-{} (recursive/higher-order)", tbl.kind(a), tbl.kind(b), tbl.kind(cc))
                     };
